@@ -309,6 +309,34 @@ func (p *Prog) LockFlow(fi *FuncInfo, entry []Held) *LockResult {
 	return la.res
 }
 
+// DeepLockEvents returns the lock events of fi followed by those of the same-package functions it calls on its
+// own stack (not as goroutines), each analysed with the locks held at its call site; depth bounds the descent.
+// Rules that ask "under which locks does this function do X" see X wherever a helper extraction has put it.
+func (p *Prog) DeepLockEvents(fi *FuncInfo, entry []Held, depth int) []*LockEvent {
+	return p.deepLockEvents(fi, entry, depth, map[string]bool{fi.Key: true})
+}
+
+func (p *Prog) deepLockEvents(fi *FuncInfo, entry []Held, depth int, open map[string]bool) []*LockEvent {
+	lr := p.LockFlow(fi, entry)
+	evs := append([]*LockEvent{}, lr.Events...)
+	if depth <= 0 {
+		return evs
+	}
+	for _, ev := range lr.Events {
+		if ev.Kind != "call" || ev.Call == nil || ev.Ctx == "go" {
+			continue
+		}
+		callee := p.staticCallee(fi.Pkg, ev.Call)
+		if callee == nil || callee.Pkg != fi.Pkg || open[callee.Key] {
+			continue
+		}
+		open[callee.Key] = true
+		evs = append(evs, p.deepLockEvents(callee, ev.Held, depth-1, open)...)
+		delete(open, callee.Key)
+	}
+	return evs
+}
+
 func (la *lockAnalyzer) event(ev *LockEvent) { la.res.Events = append(la.res.Events, ev) }
 
 func applyOp(s lstate, op *LockOp) (lstate, bool, bool) {
